@@ -157,30 +157,92 @@ def r_hash(ctx) -> RuleResult:
             for c in ast.iter_child_nodes(n):
                 parents[id(c)] = n
         names = assigned_names(fi.node)
-        for se in _set_exprs(fi.node):
-            n_sets += 1
-            p = parents.get(id(se))
-            ok = False
-            why = ""
-            if isinstance(p, ast.Call) and isinstance(p.func, ast.Name) and p.func.id in ("sorted", "len", "min", "max", "sum", "any", "all", "frozenset", "set"):
-                ok = True
-            elif isinstance(p, ast.Compare):
-                ok = True
-            elif isinstance(p, (ast.Assign, ast.AnnAssign, ast.NamedExpr)):
+        FREE_CALLS = ("sorted", "len", "min", "max", "sum", "any", "all", "bool")
+        SET_CALLS = ("set", "frozenset")
+        FREE_METHODS = ("add", "discard", "remove", "clear", "issubset", "issuperset", "isdisjoint", "__contains__")
+        SET_METHODS = ("union", "intersection", "difference", "symmetric_difference", "copy")
+        INTO_SET_METHODS = ("update", "intersection_update", "difference_update", "symmetric_difference_update",
+                            "issubset", "issuperset", "isdisjoint", "union", "intersection", "difference", "symmetric_difference")
+
+        def order_free(e, depth=0):
+            """(True, '') if the set-valued expression e is used only in ways that cannot see its iteration order"""
+            if depth > 6:
+                return False, "use chain too long"
+            p = parents.get(id(e))
+            if p is None or isinstance(p, ast.Expr):
+                return True, ""
+            if isinstance(p, ast.Compare):
+                return True, ""
+            if isinstance(p, (ast.If, ast.While, ast.IfExp, ast.Assert)) and p.test is e:
+                return True, ""
+            if isinstance(p, ast.BoolOp) or (isinstance(p, ast.UnaryOp) and isinstance(p.op, ast.Not)):
+                return order_free(p, depth + 1) if not isinstance(p, ast.UnaryOp) else (True, "")
+            if isinstance(p, ast.BinOp) and isinstance(p.op, (ast.BitAnd, ast.BitOr, ast.Sub, ast.BitXor)):
+                return order_free(p, depth + 1)
+            if isinstance(p, ast.AugAssign) and isinstance(p.op, (ast.BitAnd, ast.BitOr, ast.Sub, ast.BitXor)):
+                if p.value is e and isinstance(p.target, ast.Name):
+                    return name_free(p.target.id, depth + 1)
+                return True, ""
+            if isinstance(p, ast.Call):
+                if isinstance(p.func, ast.Name) and p.func.id in FREE_CALLS and e in p.args:
+                    return True, ""
+                if isinstance(p.func, ast.Name) and p.func.id in SET_CALLS and e in p.args:
+                    return order_free(p, depth + 1)
+                if isinstance(p.func, ast.Attribute) and e in p.args and p.func.attr in INTO_SET_METHODS:
+                    # handed to a set operation of another object: that object must itself be a set used order-free
+                    recv = p.func.value
+                    if p.func.attr in ("issubset", "issuperset", "isdisjoint"):
+                        return True, ""
+                    if isinstance(recv, ast.Name):
+                        if not _is_set_name(recv.id):
+                            return False, f"`{short(p)}` feeds the set into a container that keeps insertion order"
+                        return name_free(recv.id, depth + 1) if p.func.attr.endswith("update") else order_free(p, depth + 1)
+                    return order_free(p, depth + 1)
+            if isinstance(p, ast.Attribute) and p.value is e:
+                pp = parents.get(id(p))
+                if isinstance(pp, ast.Call) and pp.func is p:
+                    if p.attr in FREE_METHODS or p.attr.endswith("_update") or p.attr == "update":
+                        return True, ""
+                    if p.attr in SET_METHODS:
+                        return order_free(pp, depth + 1)
+                return False, f"`{short(pp if pp is not None else p)}` consumes the set in iteration order"
+            if isinstance(p, (ast.Assign, ast.AnnAssign, ast.NamedExpr)) and getattr(p, "value", None) is e:
                 tg = p.targets[0] if isinstance(p, ast.Assign) else p.target
                 if isinstance(tg, ast.Name):
-                    uses = [u for u in own_walk(fi.node) if isinstance(u, ast.Name) and u.id == tg.id and isinstance(u.ctx, ast.Load)]
-                    ok = True
-                    for u in uses:
-                        up = parents.get(id(u))
-                        good = (isinstance(up, ast.Compare)) or (isinstance(up, ast.Call) and isinstance(up.func, ast.Name) and up.func.id in ("sorted", "len", "min", "max", "sum", "any", "all")) \
-                            or (isinstance(up, ast.Attribute) and up.attr in ("add", "discard", "remove", "update", "issubset", "issuperset", "isdisjoint", "__contains__", "union", "intersection", "difference")) \
-                            or isinstance(up, (ast.BinOp, ast.BoolOp, ast.UnaryOp, ast.If, ast.While, ast.IfExp))
-                        if not good:
-                            ok = False
-                            why = f"`{short(up)}` consumes the set in iteration order"
-            else:
-                why = f"`{short(p)}` consumes the set in iteration order"
+                    ok1, why1 = name_free(tg.id, depth + 1)
+                    if isinstance(p, ast.NamedExpr) and ok1:
+                        return order_free(p, depth + 1)
+                    return ok1, why1
+                return False, f"`{short(p)}` stores the set where its later use is not followed"
+            if isinstance(p, ast.Return):
+                return False, f"`{short(p)}` hands the set to the caller"
+            return False, f"`{short(p)}` consumes the set in iteration order"
+
+        def _is_set_name(nm: str) -> bool:
+            for d in names.get(nm, []):
+                v = getattr(d, "value", None)
+                if v is not None and (isinstance(v, (ast.Set, ast.SetComp)) or (isinstance(v, ast.Call) and isinstance(v.func, ast.Name) and v.func.id in SET_CALLS)):
+                    return True
+            return False
+
+        _busy = set()
+
+        def name_free(nm: str, depth):
+            if nm in _busy:
+                return True, ""
+            _busy.add(nm)
+            try:
+                for u in own_walk(fi.node):
+                    if isinstance(u, ast.Name) and u.id == nm and isinstance(u.ctx, ast.Load):
+                        ok1, why1 = order_free(u, depth)
+                        if not ok1:
+                            return False, why1
+                return True, ""
+            finally:
+                _busy.discard(nm)
+        for se in _set_exprs(fi.node):
+            n_sets += 1
+            ok, why = order_free(se)
             res.inst(fi.fq, short(se), "ok" if ok else "fail")
             if not ok:
                 res.fail(Finding("R-HASH", fi.module.rel, fi.qualname, norm(se), f"set iteration order may reach a result: {why}", line=se.lineno))
